@@ -245,8 +245,8 @@ def run_seq_part(ctx):
     ctx.trace_ok(nb)
     shutil.rmtree(d, ignore_errors=True)
     # deeper random behaviours
-    res, traces, d = tlc.simulate('Events', ev_cfg(12, maxid=6, prios=(0, 1, 2)), num=100 if quick else 2000, depth=13,
-                                  seed=ctx.seed + 1)
+    res, traces, d = tlc.simulate('Events', ev_cfg(12, maxid=6, prios=(0, 1, 2)), num=800 if quick else 6000, depth=13,
+                                  seed=ctx.seed + 1, workers=4)
     for j, tr in enumerate(traces):
         hist = tr[-1][1]['hist']
         replay_events(ctx, hist, 'sim%d' % j)
